@@ -285,6 +285,16 @@ class Bits:
         return ''.join(('0x', self._absolute_slice(0, length - bits_at_end)._gethex(),
                         ', ', '0b', self._absolute_slice(length - bits_at_end, length)._getbin()))
 
+    def _str_untruncated(self) -> str:
+        """Like str(), but complete however long the bitstring is."""
+        if len(self) <= MAX_CHARS * 4:
+            return self.__str__()
+        bits_at_end = len(self) % 4
+        s = '0x' + self._absolute_slice(0, len(self) - bits_at_end)._gethex()
+        if bits_at_end:
+            s += ', 0b' + self._absolute_slice(len(self) - bits_at_end, len(self))._getbin()
+        return s
+
     def _repr(self, classname: str, length: int, pos: int):
         pos_string = f', pos={pos}' if pos else ''
         if hasattr(self, '_filename') and self._filename and self._bitstore.immutable:
@@ -1803,7 +1813,7 @@ class Bits:
                  output_stream, bitstring.options.lsb0, 1)
         output_stream.write("]")
         if trailing_bit_length != 0:
-            output_stream.write(" + trailing_bits = " + str(self[-trailing_bit_length:]))
+            output_stream.write(" + trailing_bits = " + self[-trailing_bit_length:]._str_untruncated())
         output_stream.write("\n")
         stream.write(output_stream.getvalue())
         return
